@@ -3,8 +3,10 @@ C05 `compile_wf`: the code the C01 compiler core (`Model/Compile.lean`) emits is
 Part 1: register bound (every register mentioned is below `registers_used()`).
 -/
 import KotoVerif.Lemmas.C01FrameFacts
+import KotoVerif.Model.WF
 
 namespace KotoVerif.Compile
+open KotoVerif.Gen KotoVerif.Bytecode
 
 /-! ### registers mentioned by code -/
 
@@ -496,6 +498,214 @@ theorem compile_regs : ∀ (e : Expr) (m : Mode) (F : Frame) (code : Code) (out 
     intro r hr q hq
     have := hres r hr
     simp [instrRegs] at hq; subst hq
+    omega
+
+
+/-! ### jumps of the flattened stream stay inside their block -/
+
+def Flat.skip : Flat → Nat
+  | .op _ => 0
+  | .jumpIfFalse _ s => s
+  | .jumpIfTrue _ s => s
+  | .jump s => s
+
+/-- every jump skips at most the instructions that follow it in the list: its target is the
+boundary of a later instruction of the list, or the end of the list -/
+def jumpsOk : List Flat → Bool
+  | [] => true
+  | f :: rest => decide (f.skip ≤ rest.length) && jumpsOk rest
+
+theorem jumpsOk_append (a b : List Flat) (ha : jumpsOk a = true) (hb : jumpsOk b = true) :
+    jumpsOk (a ++ b) = true := by
+  induction a with
+  | nil => simpa using hb
+  | cons f rest ih =>
+    simp only [jumpsOk, Bool.and_eq_true, decide_eq_true_eq] at ha
+    simp only [List.cons_append, jumpsOk, Bool.and_eq_true, decide_eq_true_eq, List.length_append]
+    exact ⟨by omega, ih ha.2⟩
+
+theorem flatten_ifElse_true (r : Reg) (t e : Code) :
+    flatten (.ifElse r t true e)
+      = .jumpIfFalse r ((flatten t).length + 1) :: (flatten t ++ .jump (flatten e).length :: flatten e) := by
+  simp [flatten]
+
+theorem flatten_ifElse_false (r : Reg) (t e : Code) :
+    flatten (.ifElse r t false e) = .jumpIfFalse r (flatten t).length :: (flatten t ++ flatten e) := by
+  simp [flatten]
+
+theorem flatten_jumpsOk (c : Code) : jumpsOk (flatten c) = true := by
+  induction c with
+  | nil => rfl
+  | instr i => simp [flatten, jumpsOk, Flat.skip]
+  | seq a b iha ihb => exact jumpsOk_append _ _ iha ihb
+  | jumpIfFalse r body ih => simp [flatten, jumpsOk, Flat.skip, ih]
+  | jumpIfTrue r body ih => simp [flatten, jumpsOk, Flat.skip, ih]
+  | ifElse r t w e iht ihe =>
+    cases w with
+    | true =>
+      rw [flatten_ifElse_true]
+      simp only [jumpsOk, Flat.skip, Bool.and_eq_true, decide_eq_true_eq]
+      refine ⟨by simp, ?_⟩
+      exact jumpsOk_append _ _ iht (by simp [jumpsOk, Flat.skip, ihe])
+    | false =>
+      rw [flatten_ifElse_false]
+      simp only [jumpsOk, Flat.skip, Bool.and_eq_true, decide_eq_true_eq]
+      exact ⟨by simp, jumpsOk_append _ _ iht ihe⟩
+
+/-- registers of the flat stream are those of the structured code -/
+def flatRegs : Flat → List Reg
+  | .op i => instrRegs i
+  | .jumpIfFalse r _ => [r]
+  | .jumpIfTrue r _ => [r]
+  | .jump _ => []
+
+theorem flatten_regs (c : Code) (n : Nat) (h : CB c n) : ∀ f ∈ flatten c, ∀ r ∈ flatRegs f, r < n := by
+  induction c with
+  | nil => intro f hf; simp [flatten] at hf
+  | instr i =>
+    intro f hf r hr
+    simp [flatten] at hf; subst hf
+    exact (CB_instr i n).1 h r hr
+  | seq a b iha ihb =>
+    intro f hf
+    simp only [flatten, List.mem_append] at hf
+    rw [CB_seq] at h
+    exact hf.elim (iha h.1 f) (ihb h.2 f)
+  | jumpIfFalse q body ih =>
+    intro f hf r hr
+    rw [CB_jif] at h
+    simp only [flatten, List.mem_cons] at hf
+    rcases hf with rfl | hf
+    · simp [flatRegs] at hr; omega
+    · exact ih h.2 f hf r hr
+  | jumpIfTrue q body ih =>
+    intro f hf r hr
+    rw [CB_jit] at h
+    simp only [flatten, List.mem_cons] at hf
+    rcases hf with rfl | hf
+    · simp [flatRegs] at hr; omega
+    · exact ih h.2 f hf r hr
+  | ifElse q t w e iht ihe =>
+    intro f hf r hr
+    rw [CB_ifElse] at h
+    cases w with
+    | true =>
+      rw [flatten_ifElse_true] at hf
+      simp only [List.mem_cons, List.mem_append] at hf
+      rcases hf with rfl | hf | rfl | hf
+      · simp [flatRegs] at hr; omega
+      · exact iht h.2.1 f hf r hr
+      · simp [flatRegs] at hr
+      · exact ihe h.2.2 f hf r hr
+    | false =>
+      rw [flatten_ifElse_false] at hf
+      simp only [List.mem_cons, List.mem_append] at hf
+      rcases hf with rfl | hf | hf
+      · simp [flatRegs] at hr; omega
+      · exact iht h.2.1 f hf r hr
+      · exact ihe h.2.2 f hf r hr
+
+/-! ### bytes: the flat stream encoded with `Model/Encode.lean` -/
+
+def unOpcode : UnOp → Op
+  | .neg => .Negate
+  | .not => .Not
+
+def binOpcode : BinOp → Op
+  | .add => .Add | .sub => .Subtract | .mul => .Multiply | .div => .Divide | .rem => .Remainder
+  | .pow => .Power | .lt => .Less | .le => .LessOrEqual | .gt => .Greater | .ge => .GreaterOrEqual
+  | .eq => .Equal | .ne => .NotEqual
+
+/-- compound assignment opcodes (`compile_compound_assignment_op` only exists for the arithmetic
+operators; the parser produces no other `compound`) -/
+def compoundOpcode : BinOp → Op
+  | .add => .AddAssign | .sub => .SubtractAssign | .mul => .MultiplyAssign | .div => .DivideAssign
+  | .rem => .RemainderAssign | .pow => .PowerAssign | _ => .AddAssign
+
+/-- `compile_node` for `SmallInt` / `Int`: `Set0`, `Set1`, `SetNumberU8`, `SetNumberNegU8`, or
+`LoadInt` with the constant's index `cidx n`. -/
+def setIntInstr (cidx : Int → Nat) (r : Nat) (n : Int) : Bytecode.Instr :=
+  if n = 0 then ⟨.Set0, [r]⟩
+  else if n = 1 then ⟨.Set1, [r]⟩
+  else if 0 ≤ n ∧ n ≤ 255 then ⟨.SetNumberU8, [r, n.toNat]⟩
+  else if -255 ≤ n ∧ n < 0 then ⟨.SetNumberNegU8, [r, (-n).toNat]⟩
+  else ⟨.LoadInt, [r, cidx n]⟩
+
+def encInstr (cidx : Int → Nat) : Instr → Bytecode.Instr
+  | .setNull r => ⟨.SetNull, [r]⟩
+  | .setBool r b => ⟨if b then .SetTrue else .SetFalse, [r]⟩
+  | .setInt r n => setIntInstr cidx r n
+  | .copy d s => ⟨.Copy, [d, s]⟩
+  | .unop op d s => ⟨unOpcode op, [d, s]⟩
+  | .binop op d a b => ⟨binOpcode op, [d, a, b]⟩
+  | .compound op l r => ⟨compoundOpcode op, [l, r]⟩
+
+/-- byte size of one flat instruction -/
+def flatSize (cidx : Int → Nat) : Flat → Nat
+  | .op i => (encode (encInstr cidx i)).length
+  | .jumpIfFalse _ _ => 4
+  | .jumpIfTrue _ _ => 4
+  | .jump _ => 3
+
+def sizeOf (cidx : Int → Nat) (fs : List Flat) : Nat := (fs.map (flatSize cidx)).sum
+
+/-- the flat stream as bytecode instructions: a skip of `k` instructions becomes the byte size of
+the `k` instructions that follow (`update_offset_placeholder`: offset = bytes emitted since the
+placeholder) -/
+def encFlat (cidx : Int → Nat) : List Flat → List Bytecode.Instr
+  | [] => []
+  | .op i :: rest => encInstr cidx i :: encFlat cidx rest
+  | .jumpIfFalse r k :: rest => ⟨.JumpIfFalse, [r, sizeOf cidx (rest.take k)]⟩ :: encFlat cidx rest
+  | .jumpIfTrue r k :: rest => ⟨.JumpIfTrue, [r, sizeOf cidx (rest.take k)]⟩ :: encFlat cidx rest
+  | .jump k :: rest => ⟨.Jump, [sizeOf cidx (rest.take k)]⟩ :: encFlat cidx rest
+
+/-- `compile_frame` for a main block: `NewFrame registers_used`, the body, `Return result` -/
+def encodeMain (cidx : Int → Nat) (registersUsed : Nat) (fs : List Flat) (result : Reg) : List Nat :=
+  (⟨.NewFrame, [registersUsed]⟩ :: (encFlat cidx fs ++ [⟨.Return, [result]⟩])).flatMap encode
+
+/-- the chunk of a compiled main block, when compilation succeeds -/
+def compileMain (cidx : Int → Nat) (e : Expr) (lc : Nat) : Option (List Nat) :=
+  match compile e .any { tb := 1 + lc } with
+  | some (code, out, F') =>
+    match out.reg with
+    | some r => some (encodeMain cidx F'.registersUsed (flatten code) r)
+    | none => none
+  | none => none
+
+
+/-- the frame of a main block with `lc` locals (the same record as `mainFrame` of Props/C01Compile) -/
+theorem mainFrame_wf' (lc : Nat) : WF ({ tb := 1 + lc } : Frame) := by
+  refine ⟨by simp, ?_⟩
+  intro i j x hi _
+  simp only [Named] at hi
+  cases i with
+  | zero => simp [Slot.id?] at hi
+  | succ i => simp at hi
+
+/-- **compile_wf, part proved for all expressions of the core**: for a main block compiled with
+`Any`, every register of every instruction of the flattened stream and the returned register are
+below the `registers_used()` written into `NewFrame`, every jump lands on the boundary of a later
+instruction of the stream or on its end (where `Return` follows), and the frame keeps room for
+`self` and the locals. The stream contains no builder or try instruction, so it is balanced. -/
+theorem compile_wf_flat (e : Expr) (lc : Nat) (code : Code) (out : Out) (F' : Frame)
+    (h : compile e .any { tb := 1 + lc } = some (code, out, F')) :
+    (∀ f ∈ flatten code, ∀ r ∈ flatRegs f, r < F'.registersUsed)
+    ∧ (∃ r, out.reg = some r ∧ r < F'.registersUsed)
+    ∧ jumpsOk (flatten code) = true
+    ∧ 1 + lc ≤ F'.registersUsed := by
+  have hw := mainFrame_wf' lc
+  have ht : T ({ tb := 1 + lc } : Frame) := by simp [T]
+  obtain ⟨hm, ht', hcb⟩ := compile_regs e .any _ code out F' h hw ht noFix_any
+  have ff := compile_frame e .any _ code out F' h hw
+  refine ⟨flatten_regs code _ hcb, ?_, flatten_jumpsOk code, ?_⟩
+  · have hreg : ∃ r, out.reg = some r := by
+      rcases ff.shape with hs | ⟨_, _, r, _, hr, _⟩
+      · exact ⟨_, by rw [hs]⟩
+      · exact ⟨r, hr⟩
+    obtain ⟨r, hr⟩ := hreg
+    exact ⟨r, hr, out_bound ff ht' noFix_any r hr⟩
+  · have := hm.tb
+    simp only [Frame.registersUsed] at *
     omega
 
 end KotoVerif.Compile
